@@ -350,6 +350,9 @@ def _run_unit_inner(unit_name, tier, repo, workdir, rlimit_factor, tpath, _round
     return res
 
 
+CONTRACT_CARRYING_RULES = ("R11", "R14", "R15", "R17", "R19")
+
+
 def _classify_main(res, u, m):
     if m.get("timeout"):
         res["status"] = "undecided"
@@ -469,6 +472,33 @@ def _classify_main(res, u, m):
                                         "(verified tree: %d) - Verus knows nothing about their results: needs contract" % (
                                             f["obligation"], f.get("where", ""), f["function"], newcl[f["function"]],
                                             base.get(f["function"], 0)))
+            else:
+                keep.append(f)
+        if len(keep) != len(res["failures"]):
+            res["failures"] = keep
+            res["status"] = "undecided"
+    # a rewrite that carries an ASSUMED or PROVED contract into the function (R11 outline with an assumed specification, R14/R19
+    # closure contract, R15 slicing helper, R17 defunctionalisation) and whose source text is gone: the function is verified as
+    # written, WITHOUT the contract the committed proof rests on (e.g. `stoplist.iter().find(..)` replaced by
+    # `stoplist.contains(..)`, of which the prelude knows only a conditional specification). If every obligation is discharged
+    # anyway the result stands; a failed obligation in that function is "proof ingredient lost", not a violation - the same rule as
+    # for a lost anchor. (Found by the harmless-refactoring evaluation, H8/refactor_1.)
+    lost = {}
+    try:
+        base_skipped = {tuple(x) for x in _cl.load().get(_cl.SKIPPED_KEY, {}).get(res["unit"], [])}
+    except Exception:
+        base_skipped = set()
+    for w in getattr(u, "skipped_rewrites", []):
+        if w.get("rule") in CONTRACT_CARRYING_RULES and (w.get("item"), w.get("rule"), w.get("pattern")) not in base_skipped:
+            lost.setdefault(w.get("item"), []).append(w)
+    if lost:
+        keep = []
+        for f in res["failures"]:
+            ws = lost.get(f.get("function"))
+            if ws:
+                res["undecided"].append("obligation %s at %s fails in `%s`, where rewrite %s (%r) no longer applies: the contract it carried "
+                                        "into the function is missing (proof ingredient lost, not a violation by itself)" % (
+                                            f["obligation"], f.get("where", ""), f["function"], ws[0]["rule"], ws[0]["pattern"][:80]))
             else:
                 keep.append(f)
         if len(keep) != len(res["failures"]):
